@@ -13,7 +13,7 @@ CLAIMED = {
         "attribute access are inferred from the Python annotations through loops, set "
         "statements and macro calls (fixpoint over call sites); the from_et parsers are scanned "
         "by def-use for the XML names feeding each dataclass field; set comparisons between "
-        "the two sides, plus escaping, DOCREF, guard/body, loader-table and memoisation rules",
+        "the two sides, plus escaping, DOCREF, guard/body, loader-table and memoisation rules; element-path agreement (the XML path a field is parsed from vs. the nesting of literal tags the templates emit it under), parser hygiene rules (optional elements read independently, xsd:boolean spellings, children-only iteration, per-line stripping of descriptions)",
         "Decides, for every one of about 950 (class, parsed field) pairs, that some template "
         "writes the field from an object of that class; that every XML name a parser reads or "
         "dispatches on is emitted; that an element wrapping a field is paired with the field "
@@ -35,7 +35,7 @@ CLAIMED = {
         "annotations, of which sub-objects transitively hold IDs / ODXLINK references / SNREFs, "
         "checked against what the three phase methods of every class visit (with guard "
         "agreement and super() chaining); structural rules for lookup order, uniqueness, "
-        "database ownership, phase order and SNREF scope",
+        "database ownership, phase order and SNREF scope; decision tables for resolve_snref and OdxLinkDatabase.update, search confined to the reference's own fragments",
         "Decides the traversal and lookup discipline of reference resolution for every class "
         "(about 1600 obligations): each reference field is consumed by a resolve call, each "
         "sub-object that needs a phase is visited by that phase under guards that agree between "
@@ -53,7 +53,7 @@ CLAIMED = {
         "the bit lengths handed to the atomic codec, the decoder's byte-consumption formula in "
         "the composite static length, dominance of the size-limit checks by the content call, "
         "comparison of is_required with the encoder's missing-value branch incl. the SYSTEM "
-        "parameter table, break-at-first-non-constant rule of the prefix",
+        "parameter table, break-at-first-non-constant rule of the prefix; loop summary of the composite static length (one symbolic iteration), scenario tables for is_required vs. the encoder's treatment of a missing value, length-guard check of the matching-request slice",
         "Decides that every static description is computed from the same expressions as the "
         "codec uses: static length vs encoded/decoded length per class, the composite length "
         "formula, both-sided and live size-limit checks, is_required/is_settable vs encoder "
@@ -81,7 +81,7 @@ CLAIMED = {
         "symbolic normalisation of the integer encoding formulas (both directions) against the "
         "ODX table, normal-form equality of padding / byte-length / byte-reversal formulas between "
         "encoder, decoder and the static-length function, dominance check of mask positioning, "
-        "who-may-write scan for the PDU buffers, decision-table check of the string encodings",
+        "who-may-write scan for the PDU buffers, decision-table check of the string encodings; scenario tables (encoding x sign) over the symbolic paths of the A_INT32 / A_UINT32 branches, byte length of the encoded value per base type, reaching-definition check of the bit cursor at every emplace_bytes call",
         "Decides the closed-form part of bit exactness: two's/one's complement and sign-magnitude "
         "formulas and the sign test, the BCD digit loops, that padding, consumed bytes and byte "
         "reversal are the same expression wherever they occur, that the used-bit mask is shifted "
@@ -99,7 +99,7 @@ CLAIMED = {
         "(incl. the zero-padding idiom) between encoder and decoder, must-pass recording of key "
         "parameters, both-directions exhaustiveness over the three factories, (type, encoding) "
         "case-set equality of emplace/extract, same-walk check of the composite codec, "
-        "terminator-rule agreement",
+        "terminator-rule agreement; scenario tables over symbolic paths for the atomic codec branches (accepted encodings), symbolic placeholder width of key parameters, journal search direction, bit-cursor alignment of emplace_bytes callers",
         "Decides the positional/key protocol the round trip rests on, for every codec class and "
         "every path: origin, unknown-parameter flag and end-of-PDU flag are saved, changed and "
         "restored; encoder and decoder position the cursor relative to the same base and "
@@ -115,7 +115,7 @@ CLAIMED = {
         "block-local dominance of every value alteration by an odxraise, symbolic normalisation "
         "of the representability guards (signed range per encoding, both directions, encoded "
         "units), structural checks of the required/unknown-parameter tests and of non-settable "
-        "parameter kinds, truthiness lint on Optional value types",
+        "parameter kinds, truthiness lint on Optional value types; shared pairing rule of encoder flags (C01) and bit-cursor alignment of emplace_bytes callers (C02)",
         "Decides the encoder's error discipline on every path: value-dependent raises are the "
         "library's error type, no local is read unassigned, every truncation/mask/pad/substitute "
         "is only the non-strict fall-back of a reported EncodeError, the value handed to "
@@ -130,7 +130,7 @@ CLAIMED = {
         "exception-escape analysis over a class-hierarchy call graph (explicit raise sites plus "
         "an implicit may-raise catalogue, filtered by enclosing handlers, with def-use taint to "
         "separate description validation from input-triggered raises), dominance check of the "
-        "truncated-PDU and MIN-LENGTH guards, handler-type check of the candidate loops",
+        "truncated-PDU and MIN-LENGTH guards, handler-type check of the candidate loops; loop-condition rule for the END-OF-PDU field",
         "Decides, for every function reachable from the five decode entry points (about 150) "
         "and every path to a raise site, that an exception whose trigger is the value of the "
         "bytes being decoded belongs to the DecodeError family, that the catalogue constructs "
@@ -147,7 +147,7 @@ CLAIMED = {
         "decision-table extraction (interval types, value comparison, scale applicability, "
         "category factory, limit swap), def-use expansion of converter guards against validity "
         "predicates, and rational-normal-form comparison of the closed forms (linear segment, "
-        "Horner scheme by symbolic unrolling, interpolation formula)",
+        "Horner scheme by symbolic unrolling, interpolation formula); decision tables over symbolic paths (compare_odx_values over kind x ordering, CompuScale.applies, physical limits); parse-side role table of COMPU-SCALE parts",
         "Decides the structural part of every conversion: the OPEN/CLOSED/INFINITE tables, the "
         "sign comparison per value kind, validity <=> convertibility per category and "
         "direction, the SCALE-LINEAR invertibility conditions, rounding to nearest by the role "
@@ -160,7 +160,7 @@ CLAIMED = {
     "C03": (
         "symbolic composition of the linear forward/inverse formulas (rational normal form), "
         "direction-wiring via def-use expansion of converter guards, rounding rule, "
-        "dominance/control-dependence check of the DataObjectProperty validity gates",
+        "dominance/control-dependence check of the DataObjectProperty validity gates; shared layout rules of the atomic codec (C02) and the parse-side role table of COMPU-SCALE parts",
         "Decides the mechanisms the decode-then-encode identity rests on: the linear inverse "
         "really is the algebraic inverse, every direction of every compu category uses its own "
         "role's data, integer results are rounded not truncated, and DataObjectProperty only "
@@ -173,7 +173,7 @@ CLAIMED = {
         "structural rules over the comparam merge and lookup (override key, merge order, "
         "recursion through the parents' computed view, protocol filter and preference), "
         "writer/reader agreement between the value parsers' omitted-value marker and the "
-        "default fall-back tests (constant folding of the tests), frozen accessor table",
+        "default fall-back tests (constant folding of the tests), frozen accessor table; parser hygiene rules for the comparam parsers; accessors must read through get_value()/get_subvalue()",
         "Decides necessary structural conditions of the comparam resolution for every "
         "hierarchy: per-(spec id, protocol) override with parents in ascending priority then "
         "local definitions; lookup by name and protocol name with the protocol-specific "
@@ -187,7 +187,7 @@ CLAIMED = {
         "decision-table extraction of HierarchyElement._compute_available_objects on its CFG, "
         "category-wiring consistency check (local getter / exclusion list / result slot / public "
         "property), constant-table check of the layer-type priorities, who-may-write rule for "
-        "parent objects",
+        "parent objects; element-path agreement for the NOT-INHERITED lists of PARENT-REF; who-may-read rule (local getters read the raw layer only)",
         "Decides the shape of the value-inheritance mechanism for every path: parents merged by "
         "descending priority from the raw parent references, NOT-INHERITED applied per parent "
         "reference to the parent's recursive view, lower priority keeps / higher replaces / "
@@ -201,7 +201,7 @@ CLAIMED = {
         "CFG rules over VariantMatcher.request_loop (control dependence of every yield on the "
         "cache-miss branch, must-pass-through of the cache update after each request, exits of "
         "the candidate loop dominated by the match record) and a decision-table check of "
-        "MatchingParameter.__matches",
+        "MatchingParameter.__matches; parser rules for the pattern parsers (xsd:boolean, independent elements)",
         "Decides the request/caching discipline and the loop shape for every path of the "
         "generator: requests are the current candidate's identification request, issued only on "
         "a cache miss and cached before the next request; cached and fresh responses reach the "
@@ -230,7 +230,7 @@ CLAIMED = {
     "C16": (
         "effect summaries of every mutator/copier of ItemAttributeList checked with "
         "must-pass-through queries on the per-method CFG; decision-table check of the collision "
-        "loop, __getattr__ and _get_item_key",
+        "loop, __getattr__ and _get_item_key; who-may-call rule over the whole package: no list operation that ItemAttributeList does not override is applied to an object declared as NamedItemList",
         "Decides that each operation of the property's list (append, insert, extend, remove, "
         "pop, clear, copy, deepcopy, pickle) updates the list view and the name view together on "
         "every path, for the same item; that a removal deletes exactly one name selected by "
@@ -244,7 +244,7 @@ CLAIMED = {
     "C12": (
         "decision-table extraction of the PCI dispatch in decode_rx_frame compared with ISO "
         "15765-2, whole-package index discipline of the per-ID state arrays, regex-AST group "
-        "check (re._parser), must-pass-through query for flow control on the CFG",
+        "check (re._parser), must-pass-through query for flow control on the CFG; who-may-write scan shared with C13; ID lists handed to the decoders are never filtered by truthiness",
         "Decides the structural part of the reassembler: the frame table (PCI nibble, u4u4/u4u12 "
         "formats, payload slices, (last+1) mod 16, completion and padding truncation), that "
         "every access to per-ID state uses the frame's receive-ID index (no shared or "
@@ -259,7 +259,7 @@ CLAIMED = {
         "exception-freedom and typestate analysis of decode_rx_frame on its CFG (dominating "
         "len(data) guards for every unpack, no state asserts, buffer used only under an "
         "is-not-None guard, reset post-dominating the yield, control dependence of state writes "
-        "on the sequence check) plus a who-may-write scan of every module",
+        "on the sequence check) plus a who-may-write scan of every module; length-guard analysis of the package's own telegram consumers (snoop.handle_telegram and the helpers it hands the payload to) and of enum conversions in frame callbacks, nested classes included",
         "Decides that no construct in decode_rx_frame can raise on frame data, that the "
         "reassembly buffer follows the idle/receiving typestate on every path (first frame "
         "re-initialises, completion resets, idle consecutive frames rejected), that a sequence "
